@@ -84,8 +84,27 @@ func genC11(t *rapid.T) C11Case {
 		}
 		sort.Ints(regd)
 		sort.Ints(unreg)
-		kind := rapid.IntRange(0, 9).Draw(t, "opkind")
+		var idle []int // created earlier, not registered at the moment
+		for s := range created {
+			if !registered[s] {
+				idle = append(idle, s)
+			}
+		}
+		sort.Ints(idle)
+		kind := rapid.IntRange(0, 11).Draw(t, "opkind")
 		switch {
+		case kind == 10 && len(idle) > 0:
+			// Remove of a WebService that is not registered (e.g. removed twice): nothing changes
+			s := idle[rapid.IntRange(0, len(idle)-1).Draw(t, "rmidle")]
+			c.Ops = append(c.Ops, C11Op{Op: "remove", Svc: s})
+		case kind == 11 && len(idle) > 0:
+			// a route added while the service is not registered is there when it is added again
+			s := idle[rapid.IntRange(0, len(idle)-1).Draw(t, "routeidle")]
+			r := newRoute()
+			created[s] = append(created[s], r)
+			c.Ops = append(c.Ops, C11Op{Op: "route", Svc: s, Routes: []c11Route{r}})
+		case kind >= 10:
+			continue
 		case (kind < 3 || len(regd) == 0) && len(unreg) > 0:
 			s := unreg[rapid.IntRange(0, len(unreg)-1).Draw(t, "addsvc")]
 			op := C11Op{Op: "add", Svc: s, Root: pool[s]}
